@@ -496,7 +496,7 @@ private:
         const ser_context&,
         std::error_code& ec) final
     {
-        static constexpr uint64_t max_value_div_1000 = (std::numeric_limits<uint64_t>::max)() / 1000;
+        static constexpr uint64_t max_value_div_1000 = static_cast<uint64_t>((std::numeric_limits<int64_t>::max)()) / 1000; // a UTC datetime is a signed 64-bit count of milliseconds
         if (stack_.empty())
         {
             ec = bson_errc::expected_bson_document;
@@ -515,6 +515,11 @@ private:
                 binary::native_to_little(static_cast<int64_t>(val*millis_in_second),std::back_inserter(buffer_));
                 break;
             case semantic_tag::epoch_milli:
+                if (val > static_cast<uint64_t>((std::numeric_limits<int64_t>::max)()))
+                {
+                    ec = bson_errc::datetime_too_large;
+                    JSONCONS_VISITOR_RETURN;
+                }
                 before_value(jsoncons::bson::bson_type::datetime_type);
                 binary::native_to_little(static_cast<int64_t>(val),std::back_inserter(buffer_));
                 break;
